@@ -1,8 +1,12 @@
 #!/bin/bash
-# usage: tools/try_patch.sh <patch.diff> <prop> [tier]  -- apply to /repo, run the check, undo
+# usage: tools/try_patch.sh <patch.diff> <prop> [tier]  -- apply to /repo, run the check, undo.
+# The evidence file of the property is saved and restored: committed evidence must come from runs on /repo itself.
 P=$(realpath "$1"); PROP=$2; TIER=${3:-quick}
 cd /repo && git diff --quiet || { echo "/repo dirty"; exit 2; }
 git -C /repo apply "$P" || { echo "patch does not apply"; exit 3; }
+EV=/verif/evidence/$PROP.json; BAK=$(mktemp)
+[ -f "$EV" ] && cp "$EV" "$BAK"
 cd /verif && ./check $PROP --tier $TIER; RC=$?
+[ -s "$BAK" ] && cp "$BAK" "$EV"; rm -f "$BAK"
 git -C /repo checkout -- . ; echo "check rc=$RC"
 exit $RC
